@@ -815,6 +815,9 @@ func runC08(c *Ctx) {
 	// round 2: every count / index type × format × extra-list position once per run, and faces of unsupported sizes (c08_mesh.go)
 	c.plyMeshSweep()
 	c.plyMeshTexSweep()
+	// after C08-m16 / C08-m17 were missed: counts on block boundaries; degenerate comment / obj_info lines (c08_degen.go)
+	c.plyBlockBoundaryFiles()
+	c.plyDegenerateHeaderLines()
 	// header parser, error and glue branches (model vs ply.ReadHeader / ply.ReadMesh): fixed variants …
 	for _, h := range plyHeaderVariants {
 		data := []byte(h)
